@@ -18,13 +18,14 @@ class FwSpec:
 
     def __init__(self, oid, src, analyse: Callable, *, passes=1, entries=None, pre=None, cpp_extra="",
                  max_block_visits=200, max_paths=800, timeout_ms=30000, claim_timeout_ms=90000, budget_s=300,
-                 replay_prestate=None, describe=""):
+                 replay_prestate=None, describe="", clock_wrap=False):
         self.oid, self.src, self.analyse, self.passes = oid, src, analyse, passes
         self.entries, self.pre, self.cpp_extra = entries, pre, cpp_extra
         self.max_block_visits, self.max_paths = max_block_visits, max_paths
         self.timeout_ms, self.claim_timeout_ms, self.budget_s = timeout_ms, claim_timeout_ms, budget_s
         self.replay_prestate = replay_prestate
         self.describe = describe
+        self.clock_wrap = clock_wrap
 
     def run(self) -> Result:
         t0 = time.time()
@@ -72,10 +73,22 @@ class FwSpec:
             except fwsym.IRUnsupported as e:
                 state["inconc"].append("analysis: " + str(e))
                 return
-            for name, bad in claims:
+            for claim in claims:
+                name, bad = claim[0], claim[1]
                 state["claims"] += 1
                 if bad is False:
                     continue
+                if len(claim) > 2:
+                    # (name, over-approximation, exact): `bad` replaces floating-point sub-terms by uninterpreted tokens,
+                    # so unsat(bad) implies unsat(exact); only a sat/unknown answer falls through to the exact claim
+                    fast = z3.simplify(bad) if z3.is_expr(bad) else bad
+                    if fast is False or (z3.is_expr(fast) and z3.is_false(fast)):
+                        continue
+                    if z3.is_expr(fast) and ex.check(fast) == "unsat":
+                        continue
+                    bad = claim[2]
+                    if bad is False:
+                        continue
                 if bad is True:
                     r, m = ex.model_for()
                 else:
@@ -88,7 +101,11 @@ class FwSpec:
                     return
                 if r == "unknown":
                     state["inconc"].append("unknown: claim " + name)
-        ex.explore(st, entries, on_path)
+        fwsym.CLOCK_WRAP[0] = self.clock_wrap
+        try:
+            ex.explore(st, entries, on_path)
+        finally:
+            fwsym.CLOCK_WRAP[0] = False
         res.queries, res.solver_s, res.paths = ex.stats["queries"], ex.stats["solver_s"], state["paths"]
         res.sample["paths"] = state["paths"]
         res.sample["claims_checked"] = state["claims"]
@@ -108,7 +125,7 @@ class FwSpec:
             res.verdict, res.detail = "harness-error", "replay: " + err
             return res
         ctx = {"symbolic": False, "ret": None, "assign": assign}
-        claims = self.analyse(fev, ctx)
+        claims = [(c[0], c[2] if len(c) > 2 else c[1]) for c in self.analyse(fev, ctx)]
         failed = [n for n, bad in claims if bad is True or (z3.is_expr(bad) and z3.is_true(z3.simplify(bad)))]
         if failed:
             res.verdict = "violation"
